@@ -44,7 +44,7 @@ for name, (units, sw, trail) in SHAPES.items():
         quick = (name in ('empty', 'one_small') and qn != 'zero_iter') or (name in ('two_small', 'huge_one') and qn in ('rank', 'select', 'run_iter', 'pred'))
         call = 'c03::queries(&[%s], %d, %s, %d)' % (', '.join('(%d, %d)' % u for u in units), sw, 'true' if trail else 'false', q)
         inst(P, 'c03_%s_%s' % (name, qn), call, tier='quick' if quick else ('deep' if name in ('two_blocks', 'huge_len', 'three_mixed') else 'thorough'), unwind=10, unwindset=rl_uw(units),
-             stubs=['simple_sds::rl_vector::index::SampleIndex::new => stubs::sample_index_new_contract'], cap=900, cap_thorough=3600, mem=24 if name == 'two_blocks' else 6, weight=nd + 1,
+             stubs=['simple_sds::rl_vector::index::SampleIndex::new => stubs::sample_index_new_contract'], cap=900, cap_thorough=3600, mem=24 if name == 'two_blocks' else (12 if qn in ('rank', 'zero_iter', 'one_iter') else 8), weight=nd + 1,
              role='rl %s' % qn,
              desc='RLVector %s: %d symbolic runs in code-length classes %s (%d block(s), %d code units), %s trailing zeros; argument over all usize' % (qn, len(units), units, blocks, nd, 'symbolic' if trail else 'no'),
              shape={'runs': units, 'blocks': blocks, 'units': nd, 'sample_width': sw, 'query': qn})
